@@ -298,6 +298,9 @@ def HOp.atPath (p : String) (vn : Node) (op : HOp) : Option (List BOp) :=
 def LiveAt (h : Heap) (root x : Addr) (p : String) : Prop :=
   if p = "" then x = root else lookupH h root p = some x
 
+instance (h : Heap) (root x : Addr) (p : String) : Decidable (LiveAt h root x p) := by
+  unfold LiveAt; infer_instance
+
 theorem outcome_unwrap {α : Type} {h' : Heap} {ret : Option Addr} (o : Option α) (g : α → Heap × Option Addr)
     (hx : outcomeOfOption (o.map g) = .ok (h', ret)) : ∃ x, o = some x ∧ g x = (h', ret) := by
   cases o with
@@ -573,5 +576,274 @@ theorem hstep_live_refines {h h' : Heap} {root : Addr} {op : HOp} {ret : Option 
           rw [hms] at this
           cases this
     | compact c => simp only [HOp.atSub] at hb; cases hb
+
+/-! ## 4. calls on DETACHED handles: no cell of the document changes -/
+
+theorem AttachSpec.cells_frame {h h' : Heap} {c v w root : Addr} (hs : AttachSpec h c v w h') (hc : h.Closed)
+    (hrlt : root < h.size) (hap : Apart h root c) : ∀ b, Reach h root b → h'.get? b = h.get? b := by
+  intro b hb
+  have hblt := reach_lt hc hb hrlt
+  apply hs.frame b hblt
+  intro e; subst e
+  obtain ⟨cw, _, h1w, _, hleaf, _⟩ := hs.written
+  exact hap b hb hs.reach_w ⟨cw, h1w, hleaf⟩
+
+theorem shrink_cells_frame {h h' : Heap} {c root : Addr} (hs : ShrinkSpec h h') (hc : h.Closed)
+    (hfr : ∀ a, ¬ Reach h c a → h'.get? a = h.get? a) (hrlt : root < h.size) (hap : Apart h root c) :
+    ∀ b, Reach h root b → h'.get? b = h.get? b := by
+  intro b hb
+  by_cases hcb : Reach h c b
+  · obtain ⟨cell, hg⟩ := get?_some_of_lt (reach_lt hc hb hrlt)
+    cases cell with
+    | leaf s => rw [hs.leaves b s hg, hg]
+    | list xs => exact absurd ⟨_, hg, rfl⟩ (hap b hb hcb)
+    | cont kvs => exact absurd ⟨_, hg, rfl⟩ (hap b hb hcb)
+  · exact hfr b hcb
+
+/-- a call made on a handle whose graph shares no container / list with the graph of `root` leaves
+    every CELL below `root` unchanged -/
+theorem hstep_cells_frame {h h' : Heap} {op : HOp} {ret : Option Addr} (hi : Inv h) (hok : op.Ok h)
+    (he : hstep h op = .ok (h', ret)) {root : Addr} (hrlt : root < h.size) (hap : Apart h root op.target) :
+    ∀ b, Reach h root b → h'.get? b = h.get? b := by
+  obtain ⟨rank, hr⟩ := hi.acyclic
+  obtain ⟨htl, hval⟩ := hok
+  cases op with
+  | addValue c name v =>
+    obtain ⟨x, hx, hf⟩ := outcome_unwrap _ _ he
+    cases hf
+    obtain ⟨w, spec⟩ := addH_spec hr hi.nilOk hi.mapsOk hx
+    exact spec.cells_frame hi.closed hrlt hap
+  | addValueAt c path v =>
+    obtain ⟨x, hx, hf⟩ := outcome_unwrap _ _ he
+    cases hf
+    obtain ⟨hv, _⟩ := hval v rfl
+    obtain ⟨w, spec⟩ := addAtSegsH_spec hi.closed hr hi.nilOk hi.mapsOk hv _ c _ (Ytk.splitPath_ne_nil path) htl hx
+    exact spec.cells_frame hi.closed hrlt hap
+  | addContainer c name =>
+    obtain ⟨x, hx, hf⟩ := outcome_unwrap _ _ he
+    obtain ⟨h2, b⟩ := x
+    cases hf
+    obtain ⟨rfl, w, spec⟩ := addContainerH_spec hr hi.nilOk hi.mapsOk hx
+    have hl := le_alloc h (.cont [])
+    have hwlt : w < h.size := reach_lt hi.closed (reach_of_le hl hi.closed spec.reach_w htl) htl
+    intro b hb
+    have hblt := reach_lt hi.closed hb hrlt
+    rw [spec.frame b (Nat.lt_of_lt_of_le hblt (size_le_of_le hl)) ?_, get?_eq_of_le hl hblt]
+    intro e; subst e
+    obtain ⟨cw, h1w, hleaf⟩ := spec.composite_w
+    rw [get?_eq_of_le hl hwlt] at h1w
+    exact hap b hb (reach_of_le hl hi.closed spec.reach_w htl) ⟨cw, h1w, hleaf⟩
+  | addList c name =>
+    obtain ⟨x, hx, hf⟩ := outcome_unwrap _ _ he
+    obtain ⟨h2, b⟩ := x
+    cases hf
+    obtain ⟨rfl, w, spec⟩ := addListH_spec hr hi.nilOk hi.mapsOk hx
+    have hl := le_alloc h (.list [])
+    have hwlt : w < h.size := reach_lt hi.closed (reach_of_le hl hi.closed spec.reach_w htl) htl
+    intro b hb
+    have hblt := reach_lt hi.closed hb hrlt
+    rw [spec.frame b (Nat.lt_of_lt_of_le hblt (size_le_of_le hl)) ?_, get?_eq_of_le hl hblt]
+    intro e; subst e
+    obtain ⟨cw, h1w, hleaf⟩ := spec.composite_w
+    rw [get?_eq_of_le hl hwlt] at h1w
+    exact hap b hb (reach_of_le hl hi.closed spec.reach_w htl) ⟨cw, h1w, hleaf⟩
+  | remove c name =>
+    obtain ⟨x, hx, hf⟩ := outcome_unwrap _ _ he
+    cases hf
+    exact shrink_cells_frame (remove_spec hx) hi.closed
+      (fun a hna => remove_frame hx (fun e => hna (e ▸ .refl _))) hrlt hap
+  | removeAt c path =>
+    obtain ⟨x, hx, hf⟩ := outcome_unwrap _ _ he
+    cases hf
+    unfold removeAtH at hx
+    split at hx
+    · exact shrink_cells_frame (removeAtSegsH_spec _ c _ hx) hi.closed (removeAtSegsH_frame _ c _ hx) hrlt hap
+    · cases hx
+  | child c name =>
+    simp only [hstep, Outcome.ok.injEq, Prod.mk.injEq] at he
+    obtain ⟨rfl, _⟩ := he; exact fun _ _ => rfl
+  | lookup c path =>
+    simp only [hstep, Outcome.ok.injEq, Prod.mk.injEq] at he
+    obtain ⟨rfl, _⟩ := he; exact fun _ _ => rfl
+  | listSet l idx v =>
+    obtain ⟨x, hx, hf⟩ := outcome_unwrap _ _ he
+    cases hf
+    exact (listSet_spec hx).cells_frame hi.closed hrlt hap
+  | listMustSet l idx v =>
+    simp only [hstep] at he
+    cases hms : listMustSetH h l idx v with
+    | ok x =>
+      rw [hms] at he
+      simp only [Outcome.map, Outcome.ok.injEq, Prod.mk.injEq] at he
+      obtain ⟨rfl, _⟩ := he
+      exact (listMustSetH_spec hms).cells_frame hi.closed hrlt hap
+    | err => rw [hms] at he; simp [Outcome.map] at he
+    | panic => rw [hms] at he; simp [Outcome.map] at he
+  | listAppend l v =>
+    obtain ⟨x, hx, hf⟩ := outcome_unwrap _ _ he
+    cases hf
+    exact (listAppend_spec hx).cells_frame hi.closed hrlt hap
+  | listClear l =>
+    obtain ⟨x, hx, hf⟩ := outcome_unwrap _ _ he
+    cases hf
+    refine shrink_cells_frame (listClear_spec hx) hi.closed ?_ hrlt hap
+    intro a hna
+    unfold listClear at hx
+    split at hx
+    · simp only [Option.some.injEq] at hx; subst hx
+      exact get?_write_ne h _ (fun e => hna (e ▸ .refl _))
+    · cases hx
+  | compact c =>
+    obtain ⟨x, hx, hf⟩ := outcome_unwrap _ _ he
+    cases hf
+    exact shrink_cells_frame (compactF_spec _ _ c _ hx) hi.closed (compactF_frame _ _ c _ hx) hrlt hap
+
+/-- tree-ness only depends on the cells below the root -/
+theorem sibSep_of_agree {h h' : Heap} {root : Addr} (hs : SibSep h root)
+    (hag : ∀ b, Reach h root b → h'.get? b = h.get? b) : SibSep h' root := by
+  have hR : ∀ b, Reach h' root b → Reach h root b := fun b hb => reach_of_agree hb hag
+  intro a cell ha hcell i j ki kj hi hj hij b hkib hkjb hcb
+  have hga := hR a ha
+  rw [hag a hga] at hcell
+  have hki : Reach h root ki := hga.trans (.step hcell (List.mem_of_getElem? hi) (.refl _))
+  have hkj : Reach h root kj := hga.trans (.step hcell (List.mem_of_getElem? hj) (.refl _))
+  have h1' : Reach h ki b := reach_of_agree hkib (fun b' hb' => hag b' (hki.trans hb'))
+  have h2' : Reach h kj b := reach_of_agree hkjb (fun b' hb' => hag b' (hkj.trans hb'))
+  refine hs a cell hga hcell i j ki kj hi hj hij b h1' h2' ?_
+  obtain ⟨cb, hgb, hlf⟩ := hcb
+  exact ⟨cb, by rw [← hag b (hki.trans h1')]; exact hgb, hlf⟩
+
+/-- one call on a DETACHED handle: invariants, tree-ness and the root's abstraction are kept -/
+theorem hstep_detached {h h' : Heap} {root : Addr} {op : HOp} {ret : Option Addr} {n : Node} (hi : Inv h)
+    (hs : SibSep h root) (hrl : root < h.size) (hok : op.Ok h) (hap : Apart h root op.target)
+    (hd : abs h root = some n) (he : hstep h op = .ok (h', ret)) :
+    Inv h' ∧ SibSep h' root ∧ root < h'.size ∧ abs h' root = some n := by
+  have hi' := hstep_inv hi hok he
+  have hsz := hstep_size_le hi hok he
+  have hag := hstep_cells_frame hi hok he hrl hap
+  refine ⟨hi', sibSep_of_agree hs hag, Nat.lt_of_lt_of_le hrl hsz, ?_⟩
+  show absH h'.size h' root = some n
+  rw [absH_agree h'.size root hag]
+  exact absH_fuel_le hsz (abs_absH hd)
+
+/-! ## 5. whole histories -/
+
+/-- THE CORRESPONDENCE OF HISTORIES.  `HandleRun root h ops bops h'`: the heap-level history `ops`
+    (calls addressed by handle ADDRESS), run from `h`, ends in `h'`, every call succeeds, and `bops` is
+    the corresponding value-level history:
+
+    * `live`: the call is made on a handle that is LIVE at the path string `p` in the heap the call is
+      applied to (`LiveAt`: the root for `p = ""`, else what `root.Lookup(p)` returns now); it attaches
+      (if anything) a tree that shares at most leaves with the document (`HOp.TreeOk`) whose
+      abstraction is `vn`; it contributes `HOp.atPath p vn op` — the path-level call at `p`;
+    * `detached`: the call is made on a handle whose graph shares no container / list with the
+      document (`Apart`) and is `HOp.Ok`; it contributes NOTHING. -/
+inductive HandleRun (root : Addr) : Heap → List HOp → List BOp → Heap → Prop
+  | nil (h : Heap) : HandleRun root h [] [] h
+  | live {h h1 h' : Heap} {op : HOp} {ops : List HOp} {ret : Option Addr} {p : String} {vn : Node}
+      {bs bops : List BOp} :
+      op.TreeOk h root → LiveAt h root op.target p → (∀ v, op.value = some v → abs h v = some vn) →
+      op.atPath p vn = some bs → hstep h op = .ok (h1, ret) → HandleRun root h1 ops bops h' →
+      HandleRun root h (op :: ops) (bs ++ bops) h'
+  | detached {h h1 h' : Heap} {op : HOp} {ops : List HOp} {ret : Option Addr} {bops : List BOp} :
+      op.Ok h → Apart h root op.target → hstep h op = .ok (h1, ret) → HandleRun root h1 ops bops h' →
+      HandleRun root h (op :: ops) bops h'
+
+theorem brun_append : ∀ (bs : List BOp) (d d1 : AMap Node) (bops : List BOp), brun d bs = .ok d1 →
+    brun d (bs ++ bops) = brun d1 bops
+  | [], d, d1, bops, hb => by
+    simp only [brun, Outcome.ok.injEq] at hb; subst hb; rfl
+  | b :: bs, d, d1, bops, hb => by
+    simp only [List.cons_append, brun] at hb ⊢
+    cases hs : bstep d b with
+    | ok d2 => rw [hs] at hb; simp only at hb ⊢; exact brun_append bs d2 d1 bops hb
+    | err => rw [hs] at hb; cases hb
+    | panic => rw [hs] at hb; cases hb
+
+/-- WHOLE-HISTORY REFINEMENT -/
+theorem HandleRun.refines {root : Addr} {h h' : Heap} {ops : List HOp} {bops : List BOp}
+    (hrun : HandleRun root h ops bops h') : ∀ {d : AMap Node}, Inv h → SibSep h root → root < h.size →
+      abs h root = some (.cont d) →
+      Inv h' ∧ SibSep h' root ∧ root < h'.size ∧ Ytk.Heap.hrun h ops = .ok h' ∧
+        ∃ d', brun d bops = .ok d' ∧ abs h' root = some (.cont d') := by
+  induction hrun with
+  | nil h => intro d hi hs hrl hd; exact ⟨hi, hs, hrl, rfl, d, rfl, hd⟩
+  | live hok hlive hv hb he _ ih =>
+    intro d hi hs hrl hd
+    obtain ⟨hi1, hs1⟩ := hstep_tree hi hs hrl hok he
+    have hrl1 := Nat.lt_of_lt_of_le hrl (hstep_size_le hi (hok.ok hi hrl) he)
+    obtain ⟨d1, hb1, hd1⟩ := hstep_live_refines hi hs hrl hok hlive hd hv hb he
+    obtain ⟨hi', hs', hrl', hr', d', hb', hd'⟩ := ih hi1 hs1 hrl1 hd1
+    exact ⟨hi', hs', hrl', by simp only [Ytk.Heap.hrun, he, hr'], d', by rw [brun_append _ _ _ _ hb1]; exact hb', hd'⟩
+  | detached hok hap he _ ih =>
+    intro d hi hs hrl hd
+    obtain ⟨hi1, hs1, hrl1, hd1⟩ := hstep_detached hi hs hrl hok hap hd he
+    obtain ⟨hi', hs', hrl', hr', d', hb', hd'⟩ := ih hi1 hs1 hrl1 hd1
+    exact ⟨hi', hs', hrl', by simp only [Ytk.Heap.hrun, he, hr'], d', hb', hd'⟩
+
+/-! ## 6. sufficient executable checks on concrete heaps (for non-vacuity instances) -/
+
+/-- the list `S` of addresses is closed under children -/
+def closedSetB (h : Heap) (S : List Addr) : Bool :=
+  S.all fun a =>
+    match h.get? a with
+    | some c => c.kids.all fun k => S.contains k
+    | none => true
+
+theorem reach_mem_of_closedSetB {h : Heap} {S : List Addr} (hS : closedSetB h S = true) {a b : Addr}
+    (ha : a ∈ S) (hr : Reach h a b) : b ∈ S := by
+  refine Reach.closed_set (fun x => x ∈ S) ?_ hr ha
+  intro x c hx hg k hk
+  have := List.all_eq_true.mp hS x hx
+  simp only [hg] at this
+  have hk' := List.all_eq_true.mp this k hk
+  simpa using hk'
+
+def leafAtB (h : Heap) (b : Addr) : Bool :=
+  match h.get? b with
+  | some (.leaf _) => true
+  | _ => false
+
+/-- sufficient check for `Apart h x y` via the executable `reach` -/
+def apartB (h : Heap) (x y : Addr) : Bool :=
+  closedSetB h (reach h x) && closedSetB h (reach h y) &&
+    (reach h x).all fun b => !((reach h y).contains b) || leafAtB h b
+
+theorem mem_reach_self (h : Heap) (a : Addr) : a ∈ reach h a := by
+  unfold reach
+  cases h.size with
+  | zero => simp [reachF]
+  | succ n => simp [reachF]
+
+theorem apart_of_apartB {h : Heap} {x y : Addr} (hb : apartB h x y = true) : Apart h x y := by
+  simp only [apartB, Bool.and_eq_true] at hb
+  obtain ⟨⟨hx, hy⟩, hall⟩ := hb
+  intro b hxb hyb hcomp
+  have hbx := reach_mem_of_closedSetB hx (mem_reach_self h x) hxb
+  have hby := reach_mem_of_closedSetB hy (mem_reach_self h y) hyb
+  have := List.all_eq_true.mp hall b hbx
+  simp only [Bool.or_eq_true, Bool.not_eq_true', List.contains_eq_mem, decide_eq_false_iff_not] at this
+  rcases this with hn | hl
+  · exact hn hby
+  · obtain ⟨cell, hg, hlf⟩ := hcomp
+    unfold leafAtB at hl
+    rw [hg] at hl
+    cases cell with
+    | leaf s => simp [Cell.isLeaf] at hlf
+    | list xs => simp at hl
+    | cont kvs => simp at hl
+
+/-- a leaf value meets every side condition of `HOp.TreeOk` / `HOp.Ok` -/
+theorem leaf_value_ok {h : Heap} {v : Addr} {s : Scalar} (hg : h.get? v = some (.leaf s)) (x : Addr) :
+    v < h.size ∧ SibSep h v ∧ Apart h x v ∧ ∀ w, Reach h x w → Composite h w → ¬ Reach h v w := by
+  refine ⟨get?_lt hg, sibSep_leaf hg, ?_, ?_⟩
+  · intro b _ hvb hcomp
+    have := reach_leaf hg hvb
+    subst this
+    exact not_composite_leaf hg hcomp
+  · intro w _ hcomp hvw
+    have := reach_leaf hg hvw
+    subst this
+    exact not_composite_leaf hg hcomp
 
 end Ytk.Heap
